@@ -81,6 +81,35 @@ mod body {
         }
     }
 
+    /// K-C22-a'' : the clamp clause with CR / CRLF / LF terminators (a lone CR ends a line since fix c47eed4):
+    /// a character at or past the end of the line converts to the end of the line's CONTENT — never into
+    /// or past its terminator, never into a later line
+    pub fn pos_to_offset_cr<const L: usize, const K: usize>(shape: [u8; K]) {
+        let cls = any_cls::<K>(&NL_CR_A);
+        let mut buf = [0u8; L];
+        fill::<L, K>(&shape, &cls, &mut buf);
+        let text = unsafe { std::str::from_utf8_unchecked(&buf[..]) };
+        let m = model::<K>(&shape, &cls, true);
+        let li = LineIndex::parse(text);
+        let line: usize = kani::any();
+        let col: usize = kani::any();
+        kani::assume(line < m.line_count());
+        let r = li.get_offset(line, col, text);
+        kani::cover!(true, "reached");
+        assert!(r.is_some(), "existing line converts to something");
+        let o = u32::from(r.unwrap()) as usize;
+        assert!(o <= L, "offset inside the document");
+        let j = m.idx_of_offset(o);
+        assert!(j.is_some(), "offset on a character boundary");
+        let j = j.unwrap();
+        let s = m.line_start_idx(line);
+        let e = m.line_end_idx(line);
+        assert!(s <= j && j <= e, "offset stays within the requested line's content");
+        if col >= m.utf16_between(s, e) {
+            assert!(j == e, "character past the end clamps to the end of the line's content (CR / CRLF / LF)");
+        }
+    }
+
     /// K-C22-a : offset -> (line, col) -> offset, through the real get_line_col.
     /// '\r' admitted; the boundary strictly inside a "\r\n" pair is excluded.
     pub fn round_trip<const L: usize, const K: usize>(shape: [u8; K]) {
